@@ -222,8 +222,6 @@ pub fn insert_rows_descriptors(rows: &Vec<Row>, row: i32, row_count: i32) -> (ne
                 assert(small(r.r as int));
             }
 //@end
-            }
-        }
     proof { assert(rows@.subrange(0, rows@.len() as int) =~= rows@); }
     new_rows
 }
@@ -242,8 +240,6 @@ pub fn delete_rows_descriptors(rows: &Vec<Row>, row: i32, row_count: i32) -> (ne
                 assert(small(r.r as int));
             }
 //@end
-            }
-        }
     proof { assert(rows@.subrange(0, rows@.len() as int) =~= rows@); }
     new_rows
 }
